@@ -233,10 +233,24 @@ func c12PosKey(r *c12Rec) string  { return getTaskCollectionPositionKey(r.root, 
 // collection; an operation addressed to record 1 through tenant 1's stores never
 // returns, changes or deletes record 2 unless record 2 is legitimately inside the
 // addressed scope (same tenant and - for task/collection scoped calls - same ids).
-func VerifC12_EtcdIsolation() {
+func VerifC12_EtcdIsolation() { c12Isolation(false) }
+
+// VerifC12_CollectionIDs: the same obligations for two checkpoints of ONE task of one
+// tenant that differ only in the collection id, with the decimal rendering of the ids
+// modelled exactly (digits), so that ids which are decimal prefixes of one another are
+// covered (the main entry treats integer formatting as an opaque injective function).
+func VerifC12_CollectionIDs() { c12Isolation(true) }
+
+func c12Isolation(fixedNames bool) {
 	L := vParam("L", 3)
-	r1 := &c12Rec{mark: "rec1", root: c12Root("root1", L), task: c12Task("task1", L), coll: vI64("coll1")}
-	r2 := &c12Rec{mark: "rec2", root: c12Root("root2", L), task: c12Task("task2", L), coll: vI64("coll2")}
+	r1 := &c12Rec{mark: "rec1", coll: vI64("coll1")}
+	r2 := &c12Rec{mark: "rec2", coll: vI64("coll2")}
+	if fixedNames {
+		r1.root, r1.task, r2.root, r2.task = "r", "t", "r", "t"
+	} else {
+		r1.root, r1.task = c12Root("root1", L), c12Task("task1", L)
+		r2.root, r2.task = c12Root("root2", L), c12Task("task2", L)
+	}
 	vAssume(vAnd(r1.coll > 0, r2.coll > 0))
 	sameTenant := r1.root == r2.root
 	sameTask := vAnd(sameTenant, r1.task == r2.task)
